@@ -22,8 +22,9 @@ Holds(c, t) ==
     [] c = "RefusalIsClean"  -> ~t.pk1.ok => t.pk1.err \in {"PackageNotFoundError", "BadZipFile", "KeyError", "ValueError"}
     [] OTHER                 -> t.pk1.ok => SaveHolds(c, t.pk1, t.ph2)
 Failing(t) == {Clauses[i] : i \in {j \in DOMAIN Clauses : ~Holds(Clauses[j], t)}}
-DriftLast(t) == t.pk1.ok /\ ~SamePhys(t.ph2, ImplSave(t.pk1, "lastwins"))
-DriftOvr(t)  == t.pk1.ok /\ ~SamePhys(t.ph2, ImplSave(t.pk1, "override"))
+\* drift against the transcribed writer is measured on model-sized packages only (the depth-first transcription recurses per part)
+DriftLast(t) == t.pk1.ok /\ Len(t.pk1.parts) <= 12 /\ ~SamePhys(t.ph2, ImplSave(t.pk1, "lastwins"))
+DriftOvr(t)  == t.pk1.ok /\ Len(t.pk1.parts) <= 12 /\ ~SamePhys(t.ph2, ImplSave(t.pk1, "override"))
 
 Bad == {k \in DOMAIN T : Failing(T[k]) # {}}
 ASSUME \A k \in Bad : PrintT(<<"VERDICT", ToJson([id |-> T[k].id, k |-> k, failing |-> Failing(T[k])])>>)
